@@ -30,6 +30,7 @@ from fvmon import gen
 from fvmon.observe import snap, snap_attrs, unbox
 
 SPEC = {
+    "anchors": ["fibertree.core.fiber:Fiber.__deepcopy__", "fibertree.core.fiber:Fiber._splitGeneric", "fibertree.core.fiber:Fiber.mergeRanks", "fibertree.core.fiber:Fiber.getPayload", "fibertree.core.fiber:Fiber._createDefault", "fibertree.core.fiber:Fiber.copy", "fibertree.core.fiber:Fiber.nonEmpty", "fibertree.core.fiber:Fiber.__add__", "fibertree.core.fiber:Fiber.__mul__", "fibertree.core.tensor:Tensor.__deepcopy__", "fibertree.core.tensor:Tensor.setRoot", "fibertree.core.rank_attrs:RankAttrs.getDefault", "fibertree.graphics.tensor_image:TensorImage.__init__", "fibertree.model.format:Format.getSubTree"],
     "rule": ("cases = (i) `val`: one value-returning operation (fiber- and tensor-level splitUniform/"
              "splitNonUniform/splitEqual/splitUnEqual at every depth, `/`, `//`, swizzleRanks, swapRanks, "
              "flattenRanks (tuple/pair/linear; also of an already flattened tensor), unflattenRanks (also after a "
